@@ -12,7 +12,7 @@ Extraction "model.ml"
   sequentialize concatenate seq_add get_by_tag set_by_tag del_by_tag remove_by tie_by tie_all set_dur get_int set_int del_int py_slice ev_mul generic_add lslice with_children children
   value_at curve_shape_at point_at points_in_range integrate average is_static sample_at env_extend_until
   env_cut_out env_cut_off env_split_at of_points to_points pdur pstarts
-  seconds_env convert convert_history metrize metrize2 join_tempo
+  seconds_env convert convert_history metrize metrize2 metrize_steps join_tempo
   ev_eqb ev_neqb
   d_eq d_lt d_le d_gt d_ge d_ne arith st_run st_beat st_read parse_duration parse_tempo seconds_of western_bpm qval to_ticks round_digits
   scale scale_sequence_to_sum accumulate_from_n cyclic_permutations find_closest_index uniqify nget nset ndel
